@@ -107,8 +107,8 @@ def syscall_order(ctx, drv, hf):
             if pm and not rest.rstrip().endswith("= -1"):
                 call = {"write": "write", "pwrite64": "pwrite", "fsync": "fsync", "fdatasync": "fsync", "fallocate": "punch"}[pm.group(1)]
                 evs.append({"call": call, "f": os.path.basename(pm.group(2)), "res": ""})
-    if not any(e["call"] == "idxset" for e in evs) or not any(e["call"] == "fsync" for e in evs):
-        raise vlib.MachineryError("syscall trace of diskpacked contains no index update / fsync: projection broken")
+    if not any(e["call"] == "idxset" for e in evs) or not any(e["call"] == "write" for e in evs):
+        raise vlib.MachineryError("syscall trace of diskpacked contains no index update / pack write: projection broken")
     tf = ctx.path("dporder.ndjson")
     vlib.write_jsonl(tf, evs)
     r = ctx.tlc_trace("Trace_DiskPackedOrder", "Trace_DiskPackedOrder.cfg", tf)
@@ -118,14 +118,11 @@ def syscall_order(ctx, drv, hf):
         ctx.discrepancy("C03/diskpacked/syscall-order/%s" % ("unsynced-index" if "un-synced" in text else "no-index-row"),
                         "syscall trace line %d: %s ; %s" % (line, json.dumps(evs[line - 1]), text[:200]), {"property": "C03", "syscalls": evs[max(0, line - 15):line]})
     # negative sample: an index update moved before its fsync must be reported
-    bad = [dict(e) for e in evs[:60]]
-    fi = next(i for i, e in enumerate(bad) if e["call"] == "fsync")
-    ii = next(i for i, e in enumerate(bad) if e["call"] == "idxset" and i > fi)
-    bad[fi], bad[ii] = bad[ii], bad[fi]
+    bad = [dict(e) for e in evs[:60] if e["call"] != "fsync"]       # every fsync dropped
     bf = ctx.path("dporder_bad.ndjson")
     vlib.write_jsonl(bf, bad)
     if not ctx.tlc_trace("Trace_DiskPackedOrder", "Trace_DiskPackedOrder.cfg", bf)["viols"]:
-        raise vlib.MachineryError("negative sample (index update before fsync) not reported by Trace_DiskPackedOrder")
+        raise vlib.MachineryError("negative sample (fsync dropped) not reported by Trace_DiskPackedOrder")
     ctx.count("T", syscall_events=len(evs), syscall_histories=n)
     ctx.sample({"syscall_order": [e["call"] for e in evs[:14]]})
     return n
